@@ -319,6 +319,7 @@ var epochCounter int
 func freshEpoch() int { epochCounter++; return epochCounter }
 
 type Frame struct {
+	callCount map[string]int // per at-clause: how many matching calls were executed on this path
 	fn       *ssa.Function
 	regs     map[ssa.Value]*Val
 	cellOf   map[*ssa.Alloc]int
@@ -1567,6 +1568,12 @@ func (fr *Frame) fork() *Frame {
 			n.phiFresh[k] = v
 		}
 	}
+	if fr.callCount != nil {
+		n.callCount = make(map[string]int, len(fr.callCount))
+		for k, v := range fr.callCount {
+			n.callCount[k] = v
+		}
+	}
 	if fr.snaps != nil {
 		n.snaps = make(map[string]*State, len(fr.snaps))
 		for k, v := range fr.snaps {
@@ -1833,11 +1840,23 @@ func (r *Run) execInstr(st *State, fr *Frame, in ssa.Instruction, b *ssa.BasicBl
 					} else if x.Common().IsInvoke() {
 						name = x.Common().Method.Name()
 					}
-					if name == f[3] {
+					want, k := f[3], 0
+					if j := strings.Index(want, "#"); j > 0 {
+						k = atoi(want[j+1:])
+						want = want[:j]
+					}
+					if name == want {
 						if fr.snaps == nil {
 							fr.snaps = map[string]*State{}
 						}
-						fr.snaps[f[0]] = st.clone() // the last such call wins
+						if fr.callCount == nil {
+							fr.callCount = map[string]int{}
+						}
+						key := c.Text
+						fr.callCount[key]++
+						if k == 0 || fr.callCount[key] == k {
+							fr.snaps[f[0]] = st.clone() // without #k: the last such call wins
+						}
 					}
 				}
 			}
